@@ -254,7 +254,17 @@ func (g *G) ExprOf(ty Ty, d int) *gen.Node {
 				continue
 			}
 			used[k] = true
-			m.Args = append(m.Args, gen.NStr(k), g.wrap(g.ExprOf(TAny, d-1)))
+			var kn *gen.Node = gen.NStr(k)
+			if g.pct("computedkey", 25) {
+				// a key that is computed: a concatenation of strings, a parenthesised string
+				g.Feat["computed-map-key"] = true
+				if g.n("keyform", 0, 1) == 0 {
+					kn = gen.NBin("+", gen.NStr(k), gen.NStr("_id"))
+				} else {
+					kn = gen.NParen(gen.NStr(k))
+				}
+			}
+			m.Args = append(m.Args, kn, g.wrap(g.ExprOf(TAny, d-1)))
 		}
 		return m
 	case TNil:
